@@ -371,6 +371,9 @@ func c08History(c *Ctx, idx int) {
 	if pr := ref.Parse(e); pr.Status != ref.ParseOK {
 		return
 	}
+	if idx%4 == 1 {
+		c08AfterFailures(c, idx)
+	}
 	c.c08Text(e, "history-plain")
 	c.c08Text(" "+e+" ", "history-spaced")
 	for _, d := range c08Decor {
@@ -394,10 +397,35 @@ func c08History(c *Ctx, idx int) {
 	}
 }
 
+// c08AfterFailures: evaluations that fail half-way (one binding of a let with several, one member of
+// a multi-select, a late argument, a late element) leave nothing behind: the texts searched right
+// after them get the category - or the value - they get in a fresh process. Which binding or member
+// is evaluated first varies with map order, so each failing text is searched several times.
+var c08Poisoners = []string{"let $a = 'stale', $b = abs(s) in [$a, $b]", "let $a = n, $b = abs(s), $c = m in [$a, $b, $c]", "let $a = 'stale' in let $b = abs(s), $z = 'z' in $a", "{a: 'stale', b: abs(s), z: n}", "[n, abs(s), m]", "not_null(n, abs(s))",
+	"let $a = 'stale', $b = $nope in $a", "xs[*].[let $a = @, $b = abs(@) in $a]", "map(&(let $a = @, $b = abs(@) in $a), xs)", "sort_by(xs, &(let $a = @, $b = abs(@) in $b))", "let $a = 'stale', $b = `1` / `0` in $a", "let $a = 'stale', $b = to_number(s) + s in $a",
+	"let $a = 'stale', $b = 'b', $c = 'c', $d = 'd', $e = 'e', $f = abs(s) in $a", "merge({a: 'stale'}, abs(s))", "let $a = 'stale' in abs(s)", "let $a = 'stale' in [$a, abs(s)]"}
+
+var c08Victims = []string{"let $c = @ in $a", "let $z = 'z' in [$z, $b]", "$a", "{x: $a}", "let $a = 'mine' in let $q = 'q' in $a", "let $q = 'q' in let $r = 'r' in [$q, $r, $c]", "[*].[let $k = @ in $a]", "let $c = 'c' in $c", "let $b = 'mine', $z = 'z' in [$b, $z]", "let $k = 'k' in {a: $a, k: $k}",
+	"map(&(let $k = @ in $b), [`1`])", "let $f = 'mine' in let $g = 'g' in [$f, $g, $e]"}
+
+func c08AfterFailures(c *Ctx, idx int) {
+	doc := map[string]any{"s": "text", "n": json.Number("1"), "m": json.Number("2"), "xs": []any{json.Number("1"), "a", json.Number("3")}}
+	p := c08Poisoners[(idx/4)%len(c08Poisoners)]
+	for _, v := range c08Victims {
+		for k := 0; k < 3; k++ {
+			c.LibSearch(p, doc)
+			if e, lc := c.LibCompile(p); lc.Err == nil && lc.Panic == nil {
+				c.LibExprSearch(e, p, doc)
+			}
+		}
+		c.c08Text(v, "history-after-failure")
+	}
+}
+
 func init() {
 	Register(&Property{
 		ID:            "C08",
-		Rule:          "failing texts generated per category and site - every builtin with every wrong argument count (also nested in multi-selects, in other calls' arguments, in expression references, three calls deep, and in never-evaluated branches), unknown names incl. near misses and ~250 names of builtins that other implementations or proposals define, expression references in value position and values in expression-reference position for every function and position, a wrong JSON type at every argument position, every invalid-value site (slice step 0, negative/non-integral counts and widths, pad strings, from_items shapes), undefined variables at top level/projections/filters/expression references/let bodies, every dynamic fault category raised at the first / a middle / the last element of each per-element construct (sort_by, max_by, min_by, group_by, map, projections, filters, multi-selects), division by zero and overflow per operator, two-fault combinations, syntax faults, plus seeded mutated expressions, plus call histories (a valid text searched first, then the same text decorated with runes that trimming removes but the grammar rejects; every prefix of a text shortest first, the text again, then extensions of it) - each run through Compile and through Search and Expression.Search on 13 documents (null, scalar, arrays, objects, fault-triggering, foreign Go values); checks per call: nil result with an error, exactly one exported category under errors.Is, non-empty text, category = the model's (single fault) or within the model's fault set (several), Compile and Search report the same static fault for every document, a compiled Expression never reports syntax/arity/unknown-function; non-trivial = the model expects an error on at least one document; distinct by text; static faults are also run against 15 top-level documents of standard-library types (raw JSON well-formed / truncated / empty, byte slices, readers, big numbers, typed nils); failing-marshalers stream: data values whose MarshalJSON / MarshalText fail with each exported error (as returned by the library, bare, wrapped once and twice, joined) and with errors of other packages, as the value, behind a pointer, nested, as a map key, through 12 expressions: exactly one category, never a static one, evaluation-failed or invalid-type; letters and digits of other alphabets (U+0100..U+03FF and 8 look-alikes) glued to an identifier, a function name and a variable are syntax faults for every document",
+		Rule:          "failing texts generated per category and site - every builtin with every wrong argument count (also nested in multi-selects, in other calls' arguments, in expression references, three calls deep, and in never-evaluated branches), unknown names incl. near misses and ~250 names of builtins that other implementations or proposals define, expression references in value position and values in expression-reference position for every function and position, a wrong JSON type at every argument position, every invalid-value site (slice step 0, negative/non-integral counts and widths, pad strings, from_items shapes), undefined variables at top level/projections/filters/expression references/let bodies, every dynamic fault category raised at the first / a middle / the last element of each per-element construct (sort_by, max_by, min_by, group_by, map, projections, filters, multi-selects), division by zero and overflow per operator, two-fault combinations, syntax faults, plus seeded mutated expressions, plus call histories (a valid text searched first, then the same text decorated with runes that trimming removes but the grammar rejects; every prefix of a text shortest first, the text again, then extensions of it; 16 evaluations that fail half-way - one binding of a let with several, one member of a multi-select, a late argument or element - searched three times each before each of 12 texts whose fault or value is fixed, e.g. lets that read names the failed let had bound) - each run through Compile and through Search and Expression.Search on 13 documents (null, scalar, arrays, objects, fault-triggering, foreign Go values); checks per call: nil result with an error, exactly one exported category under errors.Is, non-empty text, category = the model's (single fault) or within the model's fault set (several), Compile and Search report the same static fault for every document, a compiled Expression never reports syntax/arity/unknown-function; non-trivial = the model expects an error on at least one document; distinct by text; static faults are also run against 15 top-level documents of standard-library types (raw JSON well-formed / truncated / empty, byte slices, readers, big numbers, typed nils); failing-marshalers stream: data values whose MarshalJSON / MarshalText fail with each exported error (as returned by the library, bare, wrapped once and twice, joined) and with errors of other packages, as the value, behind a pointer, nested, as a map key, through 12 expressions: exactly one category, never a static one, evaluation-failed or invalid-type; letters and digits of other alphabets (U+0100..U+03FF and 8 look-alikes) glued to an identifier, a function name and a variable are syntax faults for every document",
 		MinNontrivial: 500,
 		Streams: []Stream{
 			{Name: "sites", Setup: c08Setup, N: c08N, Run: c08Run, Exhaustive: true},
